@@ -17,9 +17,10 @@ import (
 // with the encode command produces a stream that decodes to the original sequence.
 
 type c08Chain struct {
-	Results []vegeta.Result
-	Start   string   // encoding of the initial file
-	Chain   []string // --to of each encode step
+	Results  []vegeta.Result
+	Start    string   // encoding of the initial file
+	Chain    []string // --to of each encode step
+	Existing []int    // size of a file that already exists at the output path of step i (0 = none): stale content must not survive
 }
 
 func runC08Chain(c c08Chain) error {
@@ -35,6 +36,16 @@ func runC08Chain(c c08Chain) error {
 	last := c.Start
 	for i, to := range c.Chain {
 		next := filepath.Join(dir, fmt.Sprintf("step%d.%s", i+1, to))
+		if i < len(c.Existing) && c.Existing[i] > 0 {
+			// an earlier, longer run left a file at this path (a valid stream of the same format followed by more records)
+			stale, _, _ := vgen.EncodeAll(vgen.CodecByName(to), append(append([]vegeta.Result(nil), c.Results...), c.Results...))
+			for len(stale) < c.Existing[i] {
+				stale = append(stale, stale...)
+			}
+			if err := os.WriteFile(next, stale, 0o644); err != nil {
+				return err
+			}
+		}
 		var eerr error
 		if perr := vh.Try(func() { eerr = encode([]string{cur}, to, next) }); perr != nil {
 			return fmt.Errorf("encode step %d (%s -> %s) panics: %v", i+1, last, to, perr)
@@ -61,6 +72,9 @@ func TestC08EncodeChain(t *testing.T) {
 		c := c08Chain{Start: rapid.SampledFrom(formats).Draw(t, "start")}
 		c.Results = vgen.Results(t, "rs", 1, 16, vgen.ResultOpts{AllowLargeBody: rapid.IntRange(0, 4).Draw(t, "big") == 0})
 		c.Chain = rapid.SliceOfN(rapid.SampledFrom(formats), 1, 4).Draw(t, "chain")
+		if rapid.IntRange(0, 2).Draw(t, "reuse") == 0 {
+			c.Existing = rapid.SliceOfN(rapid.SampledFrom([]int{0, 1, 100000}), len(c.Chain), len(c.Chain)).Draw(t, "existing")
+		}
 		used := map[string]bool{c.Start: true}
 		for _, f := range c.Chain {
 			used[f] = true
